@@ -1,219 +1,72 @@
 //! C08 — rows() / rows_mut() behave as the ideal double-ended exact-size sequence of row slices.
 use crate::nd;
+use crate::seqdrive::*;
 use crate::util::*;
 use crate::{end_reached, returned};
 use toodee::*;
 
-/// What the harness needs from a yielded row, shared or mutable.
-pub trait RowLike {
-    fn ptr(&self) -> *const u8;
-    fn length(&self) -> usize;
-    /// Write through (mutable rows only): adds `delta` to every cell of the row.
-    fn poke(self, delta: u8);
-}
-impl<'a> RowLike for &'a [u8] {
-    fn ptr(&self) -> *const u8 {
-        self.as_ptr()
-    }
-    fn length(&self) -> usize {
-        self.len()
-    }
-    fn poke(self, _delta: u8) {}
-}
-impl<'a> RowLike for &'a mut [u8] {
-    fn ptr(&self) -> *const u8 {
-        self.as_ptr()
-    }
-    fn length(&self) -> usize {
-        self.len()
-    }
-    fn poke(self, delta: u8) {
-        let mut i = 0;
-        while i < self.len() {
-            self[i] = self[i].wrapping_add(delta);
-            i += 1;
-        }
-    }
+fn geo(base: *const u8, stride: usize, start: (usize, usize), size: (usize, usize)) -> Geo {
+    Geo { shape: Shape::Rows, base, stride, sc: start.0, sr: start.1, cols: size.0, rows: size.1, poke: false }
 }
 
-/// Geometry of the sequence under test: row `i` must be the slice at
-/// `base + (sr + i) * stride + sc` of length `cols`.
-#[derive(Clone, Copy)]
-pub struct Geo {
-    pub base: *const u8,
-    pub stride: usize,
-    pub sc: usize,
-    pub sr: usize,
-    pub cols: usize,
-    pub rows: usize,
-}
-
-impl Geo {
-    fn row_ptr(&self, i: usize) -> *const u8 {
-        self.base.wrapping_add((self.sr + i) * self.stride + self.sc)
-    }
-}
-
-fn check_item<R: RowLike>(g: &Geo, got: Option<R>, want: Option<usize>, hits: &mut [u8; 8]) {
-    match (got, want) {
-        (None, None) => {}
-        (Some(row), Some(i)) => {
-            assert!(row.length() == g.cols, "C08: yielded row has the wrong length");
-            assert!(row.ptr() == g.row_ptr(i), "C08: yielded row is not the ideal sequence's row");
-            hits[i] += 1;
-            row.poke(1);
-        }
-        (Some(_), None) => panic!("C08: iterator yielded a row where the ideal sequence is exhausted"),
-        (None, Some(_)) => panic!("C08: iterator returned None where the ideal sequence yields a row"),
-    }
-}
-
-fn check_len<I: ExactSizeIterator>(it: &I, m: &Seq) {
-    assert!(it.len() == m.len(), "C08: len() differs from the ideal sequence");
-    let (lo, hi) = it.size_hint();
-    assert!(lo == m.len() && hi == Some(m.len()), "C08: size_hint() differs from the ideal sequence");
-}
-
-/// `depth` symbolic steps followed by a symbolic terminal operation.
-/// Returns, per row, how many times it was yielded (for write-through checks).
-pub fn drive<I>(mut it: I, g: Geo, depth: usize) -> [u8; 8]
-where
-    I: Iterator + DoubleEndedIterator + ExactSizeIterator,
-    I::Item: RowLike,
-{
-    let mut hits = [0u8; 8];
-    let mut m = Seq::new(g.rows);
-    check_len(&it, &m);
-    let mut d = 0;
-    while d < depth {
-        let op = nd::u8_();
-        nd::assume(op < 4);
-        if op == 0 {
-            check_item(&g, it.next(), m.next(), &mut hits);
-        } else if op == 1 {
-            check_item(&g, it.next_back(), m.next_back(), &mut hits);
-        } else if op == 2 {
-            let n = nd::usize_();
-            check_item(&g, it.nth(n), m.nth(n), &mut hits);
-        } else {
-            let n = nd::usize_();
-            check_item(&g, it.nth_back(n), m.nth_back(n), &mut hits);
-        }
-        check_len(&it, &m);
-        d += 1;
-    }
-    let t = nd::u8_();
-    nd::assume(t < 5);
-    if t == 0 {
-        assert!(it.count() == m.len(), "C08: count() differs from the ideal sequence");
-    } else if t == 1 {
-        let want = if m.len() > 0 { Some(m.hi - 1) } else { None };
-        check_item(&g, it.last(), want, &mut hits);
-    } else if t == 2 {
-        let mut k = m.lo;
-        for row in it {
-            assert!(k < m.hi, "C08: iteration yields more rows than the ideal sequence");
-            check_item(&g, Some(row), Some(k), &mut hits);
-            k += 1;
-        }
-        assert!(k == m.hi, "C08: iteration yields fewer rows than the ideal sequence");
-    } else if t == 3 {
-        let mut k = m.hi;
-        for row in it.rev() {
-            assert!(k > m.lo, "C08: reverse iteration yields more rows than the ideal sequence");
-            k -= 1;
-            check_item(&g, Some(row), Some(k), &mut hits);
-        }
-        assert!(k == m.lo, "C08: reverse iteration yields fewer rows than the ideal sequence");
-    } else {
-        let lo = m.lo;
-        let n = it.fold(0usize, |acc, row| {
-            assert!(row.length() == g.cols, "C08: fold row length");
-            assert!(row.ptr() == g.row_ptr(lo + acc), "C08: fold visits rows out of order");
-            acc + 1
-        });
-        assert!(n == m.len(), "C08: fold visits a different number of rows");
-    }
-    hits
-}
-
-fn parent16() -> [u8; 16] {
-    nd::bytes::<16>()
-}
-
-/// rows() of a TooDeeView that is a symbolic window of a `pc` x `pr` parent held in a stack array.
-pub fn rows_view(pc: usize, pr: usize, sc: usize, ec: usize, depth: usize) {
-    let arr = parent16();
+/// rows() of a TooDeeView window (columns `sc..ec` concrete, rows symbolic) of a `pc` x `pr` parent.
+pub fn rows_view(pc: usize, pr: usize, sc: usize, ec: usize, depth: usize, mode: u8) {
+    let arr = nd::bytes::<16>();
     let (start, end) = window_rows(sc, ec, pr);
     let parent = TooDeeView::new(pc, pr, &arr[..pc * pr]);
     let v = parent.view(start, end);
-    let (c, r) = window_size(start, end);
-    assert!(v.size() == (c, r), "C08: view size");
-    let g = Geo { base: arr.as_ptr(), stride: pc, sc: start.0, sr: start.1, cols: c, rows: r };
-    drive(v.rows(), g, depth);
+    let size = window_size(start, end);
+    assert!(v.size() == size, "ORACLE: view size");
+    drive(v.rows(), geo(arr.as_ptr(), pc, start, size), 0, depth, mode, None);
     end_reached!();
 }
 
 /// rows() of a TooDeeViewMut window.
-pub fn rows_viewmut(pc: usize, pr: usize, sc: usize, ec: usize, depth: usize) {
-    let mut arr = parent16();
+pub fn rows_viewmut(pc: usize, pr: usize, sc: usize, ec: usize, depth: usize, mode: u8) {
+    let mut arr = nd::bytes::<16>();
     let base = arr.as_ptr();
     let (start, end) = window_rows(sc, ec, pr);
     let mut parent = TooDeeViewMut::new(pc, pr, &mut arr[..pc * pr]);
     let v = parent.view_mut(start, end);
-    let (c, r) = window_size(start, end);
-    assert!(v.size() == (c, r), "C08: view size");
-    let g = Geo { base, stride: pc, sc: start.0, sr: start.1, cols: c, rows: r };
-    drive(v.rows(), g, depth);
+    let size = window_size(start, end);
+    assert!(v.size() == size, "ORACLE: view size");
+    drive(v.rows(), geo(base, pc, start, size), 0, depth, mode, None);
     end_reached!();
 }
 
-/// rows_mut() of a TooDeeViewMut window, with write-through check at a symbolic parent cell.
-pub fn rowsmut_viewmut(pc: usize, pr: usize, sc: usize, ec: usize, depth: usize) {
-    let mut arr = parent16();
+/// rows_mut() of a TooDeeViewMut window, with a write-through / disjointness check over the parent.
+pub fn rowsmut_viewmut(pc: usize, pr: usize, sc: usize, ec: usize, depth: usize, mode: u8) {
+    let mut arr = nd::bytes::<16>();
     let old = arr;
     let base = arr.as_ptr();
     let (start, end) = window_rows(sc, ec, pr);
-    let (c, r) = window_size(start, end);
+    let size = window_size(start, end);
+    let g = geo(base, pc, start, size);
     let hits;
     {
         let mut parent = TooDeeViewMut::new(pc, pr, &mut arr[..pc * pr]);
         let mut v = parent.view_mut(start, end);
-        assert!(v.size() == (c, r), "C08: view size");
-        let g = Geo { base, stride: pc, sc: start.0, sr: start.1, cols: c, rows: r };
-        hits = drive(v.rows_mut(), g, depth);
+        assert!(v.size() == size, "ORACLE: view size");
+        hits = drive(v.rows_mut(), g, 0, depth, mode, None);
     }
-    // every parent cell changed by exactly the number of times its row was yielded
-    let x = nd::below(pc);
-    let y = nd::below(pr);
-    let inside = c > 0 && x >= start.0 && x < start.0 + c && y >= start.1 && y < start.1 + r;
-    let want = if inside { old[y * pc + x].wrapping_add(hits[y - start.1]) } else { old[y * pc + x] };
-    assert!(arr[y * pc + x] == want, "C08: rows_mut() write-through / disjointness");
-    if inside {
-        assert!(hits[y - start.1] <= 1, "C08: a row was yielded twice");
-    }
+    check_write_through(&g, &hits, &old, &arr, pc, pr);
     end_reached!();
 }
 
 /// rows() of an owned array of concrete shape.
-pub fn rows_owned(c: usize, r: usize, depth: usize) {
-    let cells = parent16();
+pub fn rows_owned(c: usize, r: usize, depth: usize, mode: u8) {
+    let cells = nd::bytes::<16>();
     let t = owned_u8(c, r, &cells, false);
-    let g = Geo { base: t.data().as_ptr(), stride: c, sc: 0, sr: 0, cols: c, rows: r };
-    drive(t.rows(), g, depth);
+    drive(t.rows(), geo(t.data().as_ptr(), c, (0, 0), (c, r)), 0, depth, mode, None);
     end_reached!();
 }
 
 /// rows_mut() of an owned array of concrete shape.
-pub fn rowsmut_owned(c: usize, r: usize, depth: usize) {
-    let cells = parent16();
+pub fn rowsmut_owned(c: usize, r: usize, depth: usize, mode: u8) {
+    let cells = nd::bytes::<16>();
     let mut t = owned_u8(c, r, &cells, false);
-    let g = Geo { base: t.data().as_ptr(), stride: c, sc: 0, sr: 0, cols: c, rows: r };
-    let hits = drive(t.rows_mut(), g, depth);
-    if c * r > 0 {
-        let i = nd::below(c * r);
-        assert!(hits[i / c] <= 1, "C08: a row was yielded twice");
-        assert!(t.data()[i] == cells[i].wrapping_add(hits[i / c]), "C08: rows_mut() write-through");
-    }
+    let g = geo(t.data().as_ptr(), c, (0, 0), (c, r));
+    let hits = drive(t.rows_mut(), g, 0, depth, mode, None);
+    check_write_through(&g, &hits, &cells, t.data(), c, r);
     end_reached!();
 }
